@@ -12,20 +12,35 @@ Record lcase := {
   k_tr_args : translations; k_tr_name : translations; k_tr_cat : translations;
   (* observed on the implementation *)
   k_o_text : text; k_o_atts : list text; k_o_qrs : list text; k_o_lang : lang;
-  k_o_setres : text; k_o_matched : bool; k_o_catl : text
+  k_o_setres : text; k_o_matched : bool; k_o_catl : text;
+  (* send_broadcast: languages the localization has entries for (sorted, as the code ranges them) and the
+     translations of the broadcast_created event sorted by language: (language, text, attachments, quick replies) *)
+  k_loc_langs : list lang;
+  k_o_bcast : list (lang * (text * (list text * list text)))
 }.
-
-Fixpoint text_eqb (a b : text) : bool :=
-  match a, b with
-  | [], [] => true
-  | x :: a', y :: b' => N.eqb x y && text_eqb a' b'
-  | _, _ => false
-  end.
 
 Fixpoint texts_eqb (a b : list text) : bool :=
   match a, b with
   | [], [] => true
   | x :: a', y :: b' => text_eqb x y && texts_eqb a' b'
+  | _, _ => false
+  end.
+
+(* the event's map view of the translations: one entry per language (the last one written), sorted by language *)
+Fixpoint bc_insert (e : lang * msg_out) (l : list (lang * msg_out)) : list (lang * msg_out) :=
+  match l with
+  | [] => [e]
+  | x :: rest => if N.eqb (fst e) (fst x) then e :: rest
+                 else if N.ltb (fst e) (fst x) then e :: x :: rest else x :: bc_insert e rest
+  end.
+Definition bcast_view (bc : list (lang * msg_out)) : list (lang * (text * (list text * list text))) :=
+  map (fun e => (fst e, (o_text (snd e), (o_atts (snd e), o_qrs (snd e)))))
+      (fold_left (fun acc e => bc_insert e acc) bc []).
+Fixpoint bcast_eqb (a b : list (lang * (text * (list text * list text)))) : bool :=
+  match a, b with
+  | [], [] => true
+  | (l, (t, (at_, qr))) :: a', (l', (t', (at', qr'))) :: b' =>
+      N.eqb l l' && text_eqb t t' && texts_eqb at_ at' && texts_eqb qr qr' && bcast_eqb a' b'
   | _, _ => false
   end.
 
@@ -41,12 +56,14 @@ Definition check (k : lcase) : bool :=
   let matched := texts_eqb args range_1_10 in
   let catl := category_localized (k_clang k) (k_allowed k) base_lang (k_tr_name k) in
   (* set_run_result: localized category, blanked when equal to the base category *)
-  let sr := fst (get_text1 (k_clang k) (k_allowed k) base_lang cat (k_tr_cat k)) in
-  let sr := if text_eqb sr cat then [] else sr in
+  let sr := set_run_result_category_localized (k_clang k) (k_allowed k) base_lang cat (k_tr_cat k) in
+  (* send_broadcast: the last content written per language, in language order *)
+  let bc := broadcast_translations base_lang (k_loc_langs k) m in
   text_eqb (o_text o) (k_o_text k) && texts_eqb (o_atts o) (k_o_atts k)
   && texts_eqb (o_qrs o) (k_o_qrs k) && N.eqb (o_lang o) (k_o_lang k)
   && text_eqb sr (k_o_setres k) && Bool.eqb matched (k_o_matched k)
-  && (negb matched || text_eqb catl (k_o_catl k)).
+  && (negb matched || text_eqb catl (k_o_catl k))
+  && bcast_eqb (bcast_view bc) (k_o_bcast k).
 
 (* indices of the cases on which model and implementation differ *)
 Fixpoint mismatches_from (i : N) (ks : list lcase) : list N :=
